@@ -12,7 +12,13 @@ Theorem c08_reserved_list :
   map bytes_of_string ["te"; "user-agent"; "content-type"; "grpc-message"; "grpc-message-type"; "grpc-status"]%string.
 Proof. reflexivity. Qed.
 
-(* ---- md_wire_roundtrip: one statement per emit path ---- *)
+(* ---- md_wire_roundtrip: one statement per emit path.
+   Premises (M1): apart from the six reserved names the only user entries that do not arrive
+   as sent are those under a protocol name tonic itself writes ON THAT PATH WITH THAT
+   CONFIGURATION: grpc-encoding when a send / response encoding is in force, grpc-accept-encoding
+   when the client accepts compressed responses, grpc-status-details-bin when the status has
+   details.  They are replaced by tonic's value (the *_wire theorems say by what).  grpc-timeout
+   and every other name are inside the statements. ---- *)
 
 (* client request (client::Grpc -> Request::into_http(Sanitize::Yes) -> te, content-type,
    grpc-encoding / grpc-accept-encoding when compression is configured): the complete header map
@@ -63,7 +69,7 @@ Proof. exact add_header_wire. Qed.
 Theorem c08_md_wire_roundtrip_status : forall st m0,
   well_formed st ->
   exists h, add_header st m0 = Some h /\
-  forall k, is_reserved k = false -> k <> hdr_grpc_status_details ->
+  forall k, is_reserved k = false -> (details_value st = None \/ k <> hdr_grpc_status_details) ->
     hm_get_all (from_headers h) k = match hm_get_all (st_md st) k with [] => hm_get_all m0 k | l => l end.
 Proof. exact status_roundtrip_md. Qed.
 
@@ -139,6 +145,96 @@ Theorem c08_insert_append : forall m n v k,
   hm_get_all (append m n v) k = (hm_get_all m k ++ (if bytes_eqb n k then [v] else []))%list.
 Proof. exact insert_append_spec. Qed.
 
+(* keys / values / values_mut / iter_mut: every name resp. entry exactly once, tagged by suffix *)
+Theorem c08_keys_typing : forall m,
+  NoDup (map snd (keys m)) /\
+  (forall k, In k (map snd (keys m)) <-> hm_contains m k = true) /\
+  (forall t k, In (t, k) (keys m) -> t = bin_suffix k).
+Proof. exact keys_typing. Qed.
+
+Theorem c08_values_typing : forall m,
+  values m = map (fun e => (bin_suffix (fst e), snd e)) m /\
+  values_mut m = values m /\ iter_mut m = iter m /\
+  map snd (values m) = map snd m.
+Proof. exact values_typing. Qed.
+
+Theorem c08_mut_apply : forall f m k,
+  hm_get_all (values_mut_apply f m) k = map (f (bin_suffix k)) (hm_get_all m k) /\
+  hm_get_all (iter_mut_apply f m) k = map (f (bin_suffix k)) (hm_get_all m k).
+Proof. exact mut_apply_spec. Qed.
+
+Theorem c08_get_mut_typing : forall m raw v,
+  get_mut m raw = get m raw /\ get_bin_mut m raw = get_bin m raw /\
+  (bin_suffix raw = true -> get_mut_set m raw v = m) /\
+  (bin_suffix raw = false -> get_bin_mut_set m raw v = m) /\
+  (forall k k', hn_norm raw = Some k -> bin_suffix k = false ->
+     hm_get_all (get_mut_set m raw v) k' =
+     if bytes_eqb k k' then match hm_get_all m k with [] => [] | _ :: t => v :: t end else hm_get_all m k') /\
+  (forall k k', hn_norm raw = Some k -> bin_suffix k = true ->
+     hm_get_all (get_bin_mut_set m raw v) k' =
+     if bytes_eqb k k' then match hm_get_all m k with [] => [] | _ :: t => v :: t end else hm_get_all m k').
+Proof. exact get_mut_typing. Qed.
+
+(* Entry API: a handle of encoding [bin] exists only on a name whose suffix is [bin] *)
+Theorem c08_entry_typing : forall bin m raw,
+  (bin_suffix raw = negb bin -> entry_str bin m raw = None) /\
+  (forall e, entry_str bin m raw = Some e ->
+     entry_bin_of e = bin /\ hn_norm raw = Some (entry_key e) /\ bin_suffix (entry_key e) = bin /\
+     match e with Occupied _ k => hm_contains m k = true | Vacant _ k => hm_contains m k = false end).
+Proof. exact entry_typing. Qed.
+
+(* VacantEntry::insert_entry keeps the encoding of the handle (F-C08b) *)
+Theorem c08_insert_entry_typing : forall bin m k v,
+  let '(m', e) := vacant_insert_entry bin m k v in
+  entry_bin_of e = bin /\ entry_key e = k /\
+  (forall k', hm_get_all m' k' = (hm_get_all m k' ++ (if bytes_eqb k k' then [v] else []))%list).
+Proof. exact insert_entry_typing. Qed.
+
+Theorem c08_occ_values_typed : forall m k v w,
+  (occ_get m k = Some v \/ In v (occ_iter m k) \/
+   snd (occ_insert m k w) = Some v \/
+   (exists m' olds, occ_insert_mult m k w = Val (m', olds) /\ In v olds) \/
+   snd (occ_remove m k) = Some v \/ In v (snd (snd (occ_remove_entry_mult m k)))) ->
+  In (k, v) m.
+Proof. exact occ_values_typed. Qed.
+
+(* OccupiedEntry::insert_mult panics (inside crate http 1.5.0) exactly when the name has three
+   or more values; otherwise it replaces them and returns the old ones *)
+Theorem c08_insert_mult : forall m k v,
+  (occ_insert_mult m k v = Panic <-> (3 <= List.length (hm_get_all m k))%nat) /\
+  (forall m' olds, occ_insert_mult m k v = Val (m', olds) ->
+     olds = hm_get_all m k /\
+     forall k', hm_get_all m' k' = (if bytes_eqb k k' then [v] else hm_get_all m k')).
+Proof. exact insert_mult_spec. Qed.
+
+Theorem c08_entry_ops : forall m k v k',
+  hm_get_all (vacant_insert m k v) k' = (hm_get_all m k' ++ (if bytes_eqb k k' then [v] else []))%list /\
+  hm_get_all (fst (occ_insert m k v)) k' = (if bytes_eqb k k' then [v] else hm_get_all m k') /\
+  hm_get_all (occ_append m k v) k' = (hm_get_all m k' ++ (if bytes_eqb k k' then [v] else []))%list /\
+  hm_get_all (fst (occ_remove m k)) k' = (if bytes_eqb k k' then [] else hm_get_all m k') /\
+  hm_get_all (fst (occ_remove_entry_mult m k)) k' = (if bytes_eqb k k' then [] else hm_get_all m k').
+Proof. exact entry_ops_spec. Qed.
+
+(* binary values end to end: append_bin(key, from_bytes(b_i)) -> client request / server
+   response -> the peer's get_all_bin (key in any case) -> to_bytes = the b_i, in order *)
+Theorem c08_binary_end_to_end : forall raw_s raw_r k bs md0,
+  mk_key true raw_s = Some k -> hn_norm raw_r = Some k ->
+  forallb bytes_ok bs = true -> hm_get_all md0 k = [] ->
+  let md := fold_left (fun m b => append m k (enc false b)) bs md0 in
+  (forall send accept, (send = None \/ k <> hdr_grpc_encoding) -> (accept = None \/ k <> hdr_grpc_accept_encoding) ->
+     map bin_decode (get_all_bin (from_headers (client_request_headers send accept md)) raw_r) = map Some bs) /\
+  (forall encoding, (encoding = None \/ k <> hdr_grpc_encoding) ->
+     map bin_decode (get_all_bin (from_headers (server_response_headers encoding md)) raw_r) = map Some bs).
+Proof. exact binary_end_to_end. Qed.
+
+(* ... and from a peer that pads each value or not as it likes *)
+Theorem c08_binary_from_peer : forall raw k (pbs : list (bool * list N)) h,
+  hn_norm raw = Some k -> bin_suffix k = true ->
+  forallb (fun pb => bytes_ok (snd pb)) pbs = true ->
+  hm_get_all h k = map (fun pb => enc (fst pb) (snd pb)) pbs ->
+  map bin_decode (get_all_bin (from_headers h) raw) = map (fun pb => Some (snd pb)) pbs.
+Proof. exact binary_from_peer. Qed.
+
 (* ---- non-vacuity: a map with a repeated key, a binary key, a forged te / grpc-status and a
    user grpc-encoding, sent by a client configured for gzip ---- *)
 
@@ -165,9 +261,23 @@ Example c08_example_status_premises :
   well_formed st /\ is_reserved (bytes_of_string "x-a") = false /\ is_reserved (bytes_of_string "te") = true.
 Proof. repeat split; reflexivity. Qed.
 
+(* F-C08b in the model: entry_bin on a vacant name, insert_entry, the handle is a binary one and
+   shows the stored bytes *)
+Example c08_example_insert_entry :
+  let k := bytes_of_string "x-data-bin" in
+  entry_str true [] (bytes_of_string "X-Data-BIN") = Some (Vacant true k) /\
+  entry_str false [] (bytes_of_string "X-Data-BIN") = None /\
+  let '(m', e) := vacant_insert_entry true [] k (enc false [104; 105]) in
+  entry_bin_of e = true /\ option_map bin_decode (occ_get m' (entry_key e)) = Some (Some [104; 105]).
+Proof. vm_compute. repeat split; reflexivity. Qed.
+
 Print Assumptions c08_client_wire.
 Print Assumptions c08_server_wire.
 Print Assumptions c08_status_wire.
 Print Assumptions c08_bin_value_roundtrip.
 Print Assumptions c08_accessor_typing_some.
 Print Assumptions c08_iter_typing.
+Print Assumptions c08_entry_typing.
+Print Assumptions c08_insert_entry_typing.
+Print Assumptions c08_keys_typing.
+Print Assumptions c08_binary_end_to_end.
